@@ -366,8 +366,18 @@ func (c *Client) update(obj client.Object, sub bool) error {
 
 // Patch implements client.Writer (merge patches only, which is all the repository uses).
 func (c *Client) Patch(_ context.Context, obj client.Object, patch client.Patch, _ ...client.PatchOption) error {
+	return c.patch(obj, patch, false)
+}
+
+func (c *Client) patch(obj client.Object, patch client.Patch, sub bool) error {
 	kind := c.S.KindOf(obj)
-	call := &Call{Verb: "patch", Kind: kind, NS: obj.GetNamespace(), Name: obj.GetName(), Submitted: obj.DeepCopyObject().(client.Object)}
+	verb := "patch"
+	if sub {
+		// recorded as a status write like Status().Update (the monitors judge what was submitted);
+		// PatchData tells the two apart
+		verb = "status-update"
+	}
+	call := &Call{Verb: verb, Kind: kind, NS: obj.GetNamespace(), Name: obj.GetName(), Submitted: obj.DeepCopyObject().(client.Object)}
 	if patch.Type() != types.MergePatchType {
 		return fmt.Errorf("simapi: unsupported patch type %s", patch.Type())
 	}
@@ -378,7 +388,7 @@ func (c *Client) Patch(_ context.Context, obj client.Object, patch client.Patch,
 	call.PatchData = data
 	var stored client.Object
 	err = c.do(call, func() error {
-		old, st, err := c.S.patchMerge(kind, obj, data)
+		old, st, err := c.S.patchMerge(kind, obj, data, sub)
 		call.Pre = old
 		if err != nil {
 			return err
